@@ -233,3 +233,25 @@ CHECKS["C16"] = {
         {"name": "mqttproxy", "pkg": "pkg/object/mqttproxy", "test": "TestVerifC16", "inject": [BROKERRIG], "instrument": BROKERINSTR},
     ],
 }
+
+CHECKS["C17"] = {
+    "level": "model_checking",
+    "technique": "controlled-scheduler enumeration of accept/close/SetMaxConnection interleavings on the real LimitListener+Semaphore; exhaustive connect/drop/takeover histories on the real MQTT broker",
+    "level_text": "HTTP: 8 scenarios (caps 1-2, 3-4 dials, closes incl. double close, grow / shrink below usage / shrink+grow, 1-2 acceptor loops) explored over every schedule of dial, accept, close and "
+                  "SetMaxConnection steps (incl. the goroutine that applies a cap change) up to the preemption bound; oracle: with an unchanged cap no admission at open >= cap; at quiescence free capacity is usable, "
+                  "the final capacity equals the last cap exactly (probe dials), nothing established is dropped. MQTT: every history of connect / drop / takeover events over 3 ids at caps 1 and 2 on the real broker",
+    "level_note": "sync of sem.go / limitlistener.go replaced by gated shims, gate at the goroutine started by SetMaxCount; golang.org/x/sync/semaphore itself runs uninstrumented (its waits are channel waits, i.e. durably blocked); "
+                  "MQTT events are separated by quiescence (no interleaving control inside one CONNECT)",
+    "rule": "choice tree = scheduler choices (preemptions are deviations) resp. event histories; distinct_nontrivial = distinct (accepted, open) outcomes resp. histories",
+    "explanation": "states = executions; each execution ran the real code under the scheduler / to quiescence",
+    "bounds": {"quick": "preemption bound 2; MQTT histories of 5 events", "thorough": "preemption bound 3; MQTT histories of 7 events"},
+    "assumptions": ["between two gates a goroutine runs atomically"],
+    "units": [
+        {"name": "limitlistener", "pkg": "pkg/util/limitlistener", "test": "TestVerifC17", "gomaxprocs": 1, "workers": 8,
+         "instrument": [{"file": "pkg/util/sem/semaphore.go", "imports": {"sync": "vsync"}, "go_gates": True},
+                        {"file": "pkg/util/limitlistener/limitlistener.go", "imports": {"sync": "vsync"}}]},
+        {"name": "mqttcap", "pkg": "pkg/object/mqttproxy", "test": "TestVerifC17mqtt", "inject": [BROKERRIG], "instrument": BROKERINSTR},
+        {"name": "mqttcapsched", "pkg": "pkg/object/mqttproxy", "test": "TestVerifC17mqttsched", "inject": [BROKERRIG], "gomaxprocs": 1, "workers": 3,
+         "instrument": [dict(BROKERINSTR[0], imports={"net": "vnet", "sync": "vsync", "sync/atomic": "vatomic"})]},
+    ],
+}
